@@ -17,6 +17,7 @@ import PyOak.Handle.Pattern
 import PyOak.Handle.Legacy
 import PyOak.Handle.OriginCodec
 import PyOak.Handle.ValueCodec
+import PyOak.Handle.LegacyC20Heap
 open PyOak PyOak.Sexp
 
 def dispatch (s : Sexp) : Sexp :=
@@ -43,6 +44,7 @@ def dispatch (s : Sexp) : Sexp :=
       else if cmd.startsWith "acc-" then handleAccessors cmd args
       else if cmd == "pmatch" || cmd == "pmulti" || cmd == "pcompile" then PM.handlePattern cmd args
       else if cmd == "legacy" then handleLegacy args
+      else if cmd == "lhxpath" then handleLegacyHeap args
       else if cmd.startsWith "vc-" then handleValueCodec cmd args
       else none
     match r with
